@@ -7,6 +7,7 @@ sys.path.insert(0, os.path.join(os.path.dirname(os.path.abspath(__file__)), '..'
 from framework import Check, rng_for
 from xvdriver import DriverDied
 import refxml, refxpath as X, refxslt, gen_xml, gen_xslt, xsltcommon as XC
+import xpcommon
 
 FLAVOUR = os.environ.get('VERIF_C01_FLAVOUR', 'plain')
 
@@ -37,6 +38,17 @@ def xalan_run(runner, xsl, xml):
         return ('tree', XC.output_tree(r.out), r)
     except (refxml.ParseError, UnicodeDecodeError) as e:
         return ('notwf', str(e)[:160], r)
+
+
+def same_tree_modulo_numeral_form(a, b):
+    """a: the library's tree, b: the reference's; the same shape, and every pair of strings equal or differing in the form of one numeral only"""
+    if isinstance(a, str) and isinstance(b, str):
+        return xpcommon.same_modulo_numeral_form(a, b)
+    if isinstance(a, (tuple, list)) and isinstance(b, (tuple, list)):
+        return len(a) == len(b) and all(same_tree_modulo_numeral_form(x, y) for x, y in zip(a, b))
+    if isinstance(a, dict) and isinstance(b, dict):
+        return sorted(a) == sorted(b) and all(same_tree_modulo_numeral_form(a[k], b[k]) for k in a)
+    return a == b
 
 
 def classify(xsl):
@@ -73,6 +85,11 @@ def case(ctx, idx, res):
     res.sample = {'stylesheet': xsl[:400], 'document': xml[:200], 'instructions': sorted(executed)}
     if kx == 'tree' and vx == vr:
         res.count('agree')
+        return
+    if kx == 'tree' and same_tree_modulo_numeral_form(vx, vr):
+        # the only differences are numerals of which XPath 4.2 allows both forms (see xpcommon.same_modulo_numeral_form)
+        res.count('agree')
+        res.count('agree_modulo_numeral_form')
         return
 
     def differs(xs, xm):
